@@ -16,12 +16,13 @@
    the reference tree (Memfs/CopyDir.v): it succeeds; every entry at j below the source has a copy at j
    below the destination (a directory with the requested or the source's mode; a regular file with the
    source's bytes, owner and requested or own mode); nothing else appears at or below the destination; and
-   everything outside it - the source included - is as before. Hypothesis: the names below the source are
-   proper path names (true of every key resolve produces; not yet an invariant theorem). Sources containing
+   everything outside it - the source included - is as before. It needs the keys below the source to be
+   proper path names, which Memfs/Names.v proves an invariant of every call (every key comes out of
+   resolve, or is a prefix of such a path, or a re-rooted key), so it holds in every reachable state. Sources containing
    links, copies into an existing directory and copies that follow links remain judged, not proved. *)
 From stdpp Require Import gmap.
 From Coq Require Import NArith.
-From RV Require Import Base.Str Path.Helpers Path.Expand Memfs.State Memfs.Ops Memfs.Walk Memfs.WalkOps Memfs.Step Memfs.ContentFacts Memfs.MoveFacts Memfs.Wf Memfs.WfMove Memfs.CopyFacts Memfs.CopyFile Memfs.CopyDir Memfs.Refine.
+From RV Require Import Base.Str Path.Helpers Path.Expand Memfs.State Memfs.Ops Memfs.Walk Memfs.WalkOps Memfs.Step Memfs.ContentFacts Memfs.MoveFacts Memfs.Wf Memfs.WfMove Memfs.CopyFacts Memfs.CopyFile Memfs.CopyDir Memfs.Refine Memfs.Names.
 
 Theorem C09_move_validation_frame : forall env m s d e m',
   move_validation env m s d = inr e -> move_op env m s d = Done (m', inr e) -> m' = m.
@@ -107,13 +108,21 @@ Print Assumptions C09_copy_file_fresh.
 
 (* copy of a directory tree without links to a fresh path in an existing directory *)
 Theorem C09_copy_dir_fresh : forall env m s d o sp dp db ddir r pd,
-  WF m -> kinds_ok m -> cp_follow o = false -> resolve env m s = inl sp -> resolve env m d = inl dp ->
+  WF m -> kinds_ok m -> keys_ok m -> cp_follow o = false -> resolve env m s = inl sp -> resolve env m d = inl dp ->
   m_ents m !! sp = Some r -> real_dir r -> dp = db :: ddir -> m_ents m !! dp = None -> m_ents m !! ddir = Some pd -> real_dir pd ->
-  ~ sp `suffix_of` dp -> (forall q, sp `suffix_of` q -> is_Some (m_ents m !! q) -> names_ok q) ->
-  (forall q x, sp `suffix_of` q -> m_ents m !! q = Some x -> e_link x = false) ->
+  ~ sp `suffix_of` dp -> (forall q x, sp `suffix_of` q -> m_ents m !! q = Some x -> e_link x = false) ->
   exists m', copy_op env m s d o = Done (m', inl tt) /\ WF m' /\ kinds_ok m' /\ m_cwd m' = m_cwd m /\
     (forall j x, m_ents m !! (j ++ sp) = Some x -> abs_nodes m' !! (j ++ dp) = Some (cnode m o sp dp x)) /\
     (forall j, m_ents m !! (j ++ sp) = None -> abs_nodes m' !! (j ++ dp) = None) /\
     (forall k, ~ dp `suffix_of` k -> abs_nodes m' !! k = abs_nodes m !! k).
-Proof. exact copy_dir_fresh. Qed.
+Proof. exact copy_dir_fresh_reachable. Qed.
 Print Assumptions C09_copy_dir_fresh.
+
+(* the keys of every reachable state are proper path names *)
+Theorem C09_keys_invariant : forall env m o m' r, WF m -> keys_ok m -> step env m o = Done (m', r) -> keys_ok m'.
+Proof. exact keys_step. Qed.
+Print Assumptions C09_keys_invariant.
+
+Theorem C09_keys_initial : keys_ok mfs_init.
+Proof. exact keys_init. Qed.
+Print Assumptions C09_keys_initial.
